@@ -504,10 +504,12 @@ def concurrent_pairs(rep):
     g0, g1, g2 = G[0], G[1], G[2]
     for fam in ("ember", "sl"):
         for table in ([(0, 0), (0, 0)], [(g0, 1), (0, 0), (0, 0)], [(g0, 1), (0, 0)], [(0, 0), (0, 0), (0, 0)]):
-            for pair in ((("subscribe", g1), ("subscribe", g2)), (("subscribe", g1), ("unsubscribe", g0)), (("unsubscribe", g0), ("subscribe", g2))):
-                if any(op == "unsubscribe" for op, _ in pair) and not any(gid == g0 for gid, _ in table):
+            for pair in ((("subscribe", g1), ("subscribe", g2)), (("subscribe", g1), ("unsubscribe", g0)), (("unsubscribe", g0), ("subscribe", g2)),
+                         # ... and for the SAME group: a subscribe issued while the unsubscribe of that group is still in flight (and the reverse)
+                         (("unsubscribe", g0), ("subscribe", g0)), (("subscribe", g1), ("unsubscribe", g1))):
+                if any(op == "unsubscribe" and g == g0 for op, g in pair) and not any(gid == g0 for gid, _ in table):
                     continue
-                for ans in ("ok", "reject"):
+                for ans in ("ok", "reject", "timeout", "reject+ok", "timeout+ok", "ok+reject", "ok+timeout"):     # a+b: first write of the two calls answered a, the second b
                     n += 1
                     w = World(tuple(table), fam)
                     w.apply(0)   # startup with no member groups
